@@ -128,6 +128,9 @@ def configs(rng):
     kind = ('noise', 'tones', 'amfm', 'walk')[rng.randint(4)]
     N = int(rng.choice([96, 160, 256]))
     x = signal(kind, N, rng)
+    if rng.rand() < .25:
+        # quantised data stored as integers (ADC counts): the masked sift works in floating point whatever the input dtype
+        x = np.round(np.asarray(x, float) * 40).astype([np.int16, np.int64][rng.randint(2)])
     src = ('zc', 'if', 'float', 'list')[rng.randint(4)]
     kw = {'nphases': int(rng.randint(1, 9)), 'mask_amp_mode': str(rng.choice(['abs', 'ratio_sig', 'ratio_imf'])),
           'max_imfs': int(rng.choice([2, 3, 4])), 'mask_step_factor': float(rng.choice([2, 3, 1.5]))}
@@ -171,6 +174,30 @@ def _job(args):
                     ref = emd.sift.get_next_imf(inp, **opts)[0][:, 0]
                     ok &= int(np.allclose(o[:, k], ref, rtol=0, atol=1e-12 * (1 + np.abs(ref).max())))
             out.append({'kind': 'zero', 'zero_ok': ok, 'seed': seed})
+        if seed % 3 == 1:
+            # a mask of frequency exactly zero (the documented example list of mask frequencies ends in 0) is the constant
+            # amp * cos(phase): with one phase (phase 0) the definition gives  get_next_imf(X + amp) - amp
+            amp = float(rng.choice([.5, .75, 2]))
+            xf = np.asarray(x, float)
+            opts = dict(envelope_opts=kw.get('envelope_opts'), extrema_opts=kw.get('extrema_opts'), **(kw.get('imf_opts') or {}))
+            o = core.guarded(emd.sift.get_next_imf_mask, xf[:, None], 0.0, amp, nphases=1, nprocesses=1,
+                             imf_opts=kw.get('imf_opts') or {}, envelope_opts=kw.get('envelope_opts') or {}, extrema_opts=kw.get('extrema_opts') or {}, _timeout=60)
+            ok = 0
+            if not isinstance(o, str):
+                ref = emd.sift.get_next_imf(xf[:, None] + amp, **opts)[0] - amp
+                got = o[0] if isinstance(o, tuple) else o
+                ok = int(np.shape(got) == np.shape(ref) and np.allclose(got, ref, rtol=0, atol=1e-12 * (1 + np.abs(ref).max())))
+            # ... and through mask_sift with an explicit list that ends in 0
+            kz = dict(kw, mask_freqs=[.25, .1, 0.0], max_imfs=3, nphases=1, mask_amp=amp, mask_amp_mode='abs')
+            o2 = core.guarded(emd.sift.mask_sift, xf, _timeout=60, **kz)
+            ok2 = 0
+            if not isinstance(o2, str) and o2.shape[1] == 3:
+                resid = xf[:, None] - o2[:, :2].sum(axis=1)[:, None]
+                ref2 = emd.sift.get_next_imf(resid + amp, **opts)[0][:, 0] - amp
+                ok2 = int(np.allclose(o2[:, 2], ref2, rtol=0, atol=1e-9 * (1 + np.abs(ref2).max())))
+            elif not isinstance(o2, str):
+                ok2 = 1          # the sift ended before the third layer: nothing to compare
+            out.append({'kind': 'zerofreq', 'helper_ok': ok, 'sift_ok': ok2, 'seed': seed})
     return out
 
 
